@@ -411,9 +411,13 @@ def cass_type(kind):
 
 
 VALUES = [10, 11]
+CVALUES = [20]                          # what is written through the copy: told apart from anything the source ever held
 
 
 class OMWorld(object):
+    """m: the map under test (model M, keys identified by ident()).  c: None, or a plain OrderedMap built from m by the
+    constructor (model C: [(key index, value)]; a plain OrderedMap has no CQL type, so in c every key index is its own key)."""
+
     def __init__(self, cls_name, kind, proto):
         import cassandra.util as cu
         self.cls_name, self.kind, self.proto = cls_name, kind, proto
@@ -429,6 +433,7 @@ class OMWorld(object):
             self.ident = lambda i: encs.index(encs[i])
         self.keys = keys
         self.M = []                     # [(ident, value)] in insertion order
+        self.c, self.C = None, None
         self.cu = cu
 
     def mk(self, i):
@@ -440,42 +445,69 @@ class OMWorld(object):
                 return self.ident(i)
         raise Unknown(repr(k))
 
-    def key(self):
-        m = self.m
-        items = tuple((self.kid(k), v) for k, v in m._items)
-        index = tuple(sorted((bytes(k), v) for k, v in m._index.items()))
-        rest = tuple(sorted((k, repr(v)) for k, v in vars(m).items() if k not in ('_items', '_index', 'cass_key_type')))
-        return (tuple(self.M), items, index, rest)
+    def raw(self, k):
+        """the index of exactly this key object (an alias key is told apart from the key it aliases)"""
+        for i, e in enumerate(self.keys):
+            if type(e) is type(k) and e == k:
+                return i
+        raise Unknown(repr(k))
 
-    def observe(self):
-        m, M = self.m, self.M
+    def ambiguous(self, i):
+        """in the plain copy: is key i python-equal to another key object the copy holds, without being that object's
+        equal in type (dict vs OrderedDict)?  Whether a type-less map should find it is not defined by the statement."""
+        if self.kind != 'map' or self.C is None:
+            return False
+        cls = lambda j: 1 if j == 3 else j
+        return any(j != i and cls(j) == cls(i) for j, _ in self.C)
+
+    def _dump(self, o, kf):
+        items = tuple((kf(k), v) for k, v in o._items)
+        index = tuple(sorted((bytes(k), v) for k, v in o._index.items()))
+        rest = tuple(sorted((k, repr(v)) for k, v in vars(o).items() if k not in ('_items', '_index', 'cass_key_type')))
+        return (items, index, rest)
+
+    def key(self):
+        models = (tuple(self.M), None if self.C is None else tuple(self.C))
+        return (models, self._dump(self.m, self.kid), None if self.c is None else self._dump(self.c, self.raw))
+
+    def _observe(self, m, M, kf, idf, probes, pre):
         try:
-            ks = [self.kid(k) for k in m]
+            ks = [kf(k) for k in m]
         except Unknown as e:
-            return 'state/foreign-key', 'iterates %s' % e
+            return pre + 'state/foreign-key', 'iterates %s' % e
         if ks != [k for k, _ in M]:
-            return 'state/key-order', 'iterates keys %r, model %r' % (ks, [k for k, _ in M])
+            return pre + 'state/key-order', 'iterates keys %r, model %r' % (ks, [k for k, _ in M])
         if len(m) != len(M):
-            return 'state/len', 'len = %r, model %d' % (len(m), len(M))
+            return pre + 'state/len', 'len = %r, model %d' % (len(m), len(M))
         d = dict(M)
-        for i in range(len(self.keys)):
+        for i in probes:
             k = self.mk(i)
             try:
                 c = k in m
                 g = m.get(k, 'absent')
             except Exception as e:
-                return 'state/lookup', 'lookup of %r raised %r' % (k, e)
-            want = d.get(self.ident(i), 'absent')
-            if c != (self.ident(i) in d) or g != want:
-                return 'state/lookup', '(%r in m, m.get) = (%r, %r), model (%r, %r)' % (k, c, g, self.ident(i) in d, want)
+                return pre + 'state/lookup', 'lookup of %r raised %r' % (k, e)
+            want = d.get(idf(i), 'absent')
+            if c != (idf(i) in d) or g != want:
+                return pre + 'state/lookup', '(%r in m, m.get) = (%r, %r), model (%r, %r) (iterates keys %r)' % (
+                    k, c, g, idf(i) in d, want, ks)
         try:
-            its = [(self.kid(k), v) for k, v in m.items()]
+            its = [(kf(k), v) for k, v in m.items()]
             vs = list(m.values())
         except Exception as e:
-            return 'state/items', 'items()/values() raised %r' % (e,)
+            return pre + 'state/items', 'items()/values() raised %r (iterates keys %r)' % (e, ks)
         if its != M or vs != [v for _, v in M]:
-            return 'state/items', 'items() = %r, model %r' % (its, M)
+            return pre + 'state/items', 'items() = %r, model %r' % (its, M)
         return None
+
+    def observe(self):
+        r = self._observe(self.m, self.M, self.kid, self.ident, range(len(self.keys)), '')
+        if r:
+            return (r[0], 'source: ' + r[1]) if self.c is not None else r
+        if self.c is None:
+            return None
+        r = self._observe(self.c, self.C, self.raw, lambda i: i, [i for i in range(len(self.keys)) if not self.ambiguous(i)], 'copy-')
+        return r and (r[0], 'copy: ' + r[1])
 
     def clone(self, pairs):
         """a second map of the same class with the given (key index, value) pairs"""
@@ -490,17 +522,20 @@ class OMWorld(object):
 def om_ops(w):
     n = len(w.keys)
     mut = [('set', (i, v)) for i in range(n) for v in VALUES] + [('del', i) for i in range(n)] + [('popitem', None)]
+    # a plain OrderedMap constructed from the map (replacing an earlier copy), from that copy again, and the copy's own mutators
+    mut += [('copy', None), ('recopy', None)] + [('c.set', (i, v)) for i in range(n) for v in CVALUES] + \
+           [('c.del', i) for i in range(n)] + [('c.popitem', None)]
     qry = [('get', i) for i in range(n)] + [('contains', i) for i in range(n)] + [('len', None), ('iter', None), ('keys', None),
            ('eq-clone', None), ('eq-clone-changed-value', None), ('eq-clone-shorter', None), ('eq-dict', None),
            ('eq-dict-changed', None), ('ne-clone', None), ('construct-pairs', None), ('construct-dups', None),
            ('construct-dict', None), ('construct-map', None), ('construct-kwargs', None), ('construct-two-args', None)]
+    qry += [('c.get', i) for i in range(n)] + [('c.contains', i) for i in range(n)] + [('c.len', None), ('c.iter', None), ('c.keys', None),
+            ('eq-copy', None), ('construct-map-kwargs', None)]
     return mut, qry
 
 
 def om_apply(w, op):
     name, arg = op
-    m, M = w.m, w.M
-    d = dict(M)
 
     def guard(f):
         try:
@@ -510,47 +545,106 @@ def om_apply(w, op):
         except Exception as e:
             return ('exc', type(e).__name__)
 
+    if name in ('copy', 'recopy'):
+        if name == 'recopy' and w.c is None:
+            return ('skip',), ('skip',)
+        if name == 'copy':
+            # the copy holds the key objects the source iterates (which of two aliases that is, is the source's business)
+            raw = []
+            for k in w.m:
+                try:
+                    raw.append(w.raw(k))
+                except Unknown:
+                    break
+            if [w.ident(r) for r in raw] == [k for k, _ in w.M]:
+                newC = [(r, v) for r, (_, v) in zip(raw, w.M)]
+            else:
+                newC = list(w.M)          # the source has already left its model (reported by its own observation)
+            src = w.m
+        else:
+            newC, src = list(w.C), w.c
+
+        def f():
+            w.c = w.cu.OrderedMap(src)
+            return ('val', type(w.c).__name__)
+        got = guard(f)
+        w.C = newC
+        if got[0] == 'exc':
+            w.c, w.C = None, None
+        return got, ('val', 'OrderedMap')
+
+    if name.startswith('c.'):
+        if w.c is None:
+            return ('skip',), ('skip',)
+        name = name[2:]
+        ki = arg[0] if name == 'set' else arg
+        if ki is not None and w.ambiguous(ki):
+            return ('skip',), ('skip',)
+        m, M, ident, kid = w.c, w.C, (lambda i: i), w.raw
+    else:
+        m, M, ident, kid = w.m, w.M, w.ident, w.kid
+    d = dict(M)
+
     def pairs_of(o):
         return ('pairs', tuple((w.kid(k), v) for k, v in o.items()))
 
     if name == 'set':
         i, v = arg
         got = guard(lambda: ('none',) if m.__setitem__(w.mk(i), v) is None else ('val', 'not None'))
-        kid = w.ident(i)
+        kid_ = ident(i)
         for j, (k, _) in enumerate(M):
-            if k == kid:
-                M[j] = (kid, v)        # an existing key keeps its position
+            if k == kid_:
+                M[j] = (kid_, v)        # an existing key keeps its position
                 break
         else:
-            M.append((kid, v))
+            M.append((kid_, v))
         return got, ('none',)
     if name == 'del':
         got = guard(lambda: ('none',) if m.__delitem__(w.mk(arg)) is None else ('val', 'not None'))
-        kid = w.ident(arg)
-        if kid in d:
-            M[:] = [(k, v) for k, v in M if k != kid]
+        kid_ = ident(arg)
+        if kid_ in d:
+            M[:] = [(k, v) for k, v in M if k != kid_]
             return got, ('none',)
         return got, ('exc', 'KeyError')
     if name == 'popitem':
         def f():
             k, v = m.popitem()
-            return ('pair', w.kid(k), v)
+            return ('pair', kid(k), v)
         got = guard(f)
         if not M:
             return got, ('exc', 'KeyError')
         k, v = M.pop()
         return got, ('pair', k, v)
     if name == 'get':
-        kid = w.ident(arg)
-        return guard(lambda: ('val', m[w.mk(arg)])), (('val', d[kid]) if kid in d else ('exc', 'KeyError'))
+        kid_ = ident(arg)
+        return guard(lambda: ('val', m[w.mk(arg)])), (('val', d[kid_]) if kid_ in d else ('exc', 'KeyError'))
     if name == 'contains':
-        return guard(lambda: ('val', w.mk(arg) in m)), ('val', w.ident(arg) in d)
+        return guard(lambda: ('val', w.mk(arg) in m)), ('val', ident(arg) in d)
     if name == 'len':
         return guard(lambda: ('val', len(m))), ('val', len(M))
     if name == 'iter':
-        return guard(lambda: ('keys', tuple(w.kid(k) for k in m))), ('keys', tuple(k for k, _ in M))
+        return guard(lambda: ('keys', tuple(kid(k) for k in m))), ('keys', tuple(k for k, _ in M))
     if name == 'keys':
-        return guard(lambda: ('keys', tuple(w.kid(k) for k in m.keys()))), ('keys', tuple(k for k, _ in M))
+        return guard(lambda: ('keys', tuple(kid(k) for k in m.keys()))), ('keys', tuple(k for k, _ in M))
+    if name == 'eq-copy':
+        # source and copy as two mappings: compared when neither holds an alias key object (else "the same pairs" depends
+        # on which identity is meant)
+        if w.c is None:
+            return ('skip',), ('skip',)
+        try:
+            raws = [w.raw(k) for k in m]
+        except Unknown:
+            return ('skip',), ('skip',)
+        if any(r >= 3 for r in raws) or any(r >= 3 for r, _ in w.C) or [w.ident(r) for r in raws] != [k for k, _ in M]:
+            return ('skip',), ('skip',)
+        same = list(M) == list(w.C)
+        return guard(lambda: ('val', (m == w.c, w.c == m, m != w.c))), ('val', (same, same, not same))
+    if name == 'construct-map-kwargs':
+        # OrderedMap(map, **kwargs): the map's entries, then the keyword entries (text keys only)
+        if w.kind != 'text':
+            return ('skip',), ('skip',)
+        want = [(k, v) for k, v in M if k != 1] + [(1, 77)] if 1 not in d else [(k, (77 if k == 1 else v)) for k, v in M]
+        return guard(lambda: pairs_of(w.cu.OrderedMap(m, **{w.mk(1): 77}))), ('pairs', tuple(want))
     if name == 'eq-clone':
         return guard(lambda: ('val', (m == w.clone(M), m != w.clone(M)))), ('val', (True, False))
     if name == 'ne-clone':
